@@ -1108,7 +1108,13 @@ func (se *stanzaEncoder) EncodeToken(t xml.Token) error {
 			var foundID, foundFrom bool
 			attrs := tok.Attr[:0]
 			for _, attr := range tok.Attr {
-				switch attr.Name.Local {
+				// Only the unqualified attributes are the stanza's id and from,
+				// attributes of the same local name in a name space (xml:id) are not.
+				local := attr.Name.Local
+				if attr.Name.Space != "" {
+					local = ""
+				}
+				switch local {
 				case "id":
 					// RFC6120 § 8.1.3
 					// For <message/> and <presence/> stanzas, it is RECOMMENDED for the
@@ -1150,7 +1156,7 @@ func (se *stanzaEncoder) EncodeToken(t xml.Token) error {
 		// attributes. See https://mellium.im/issue/75
 		attrs := tok.Attr[:0]
 		for _, attr := range tok.Attr {
-			if attr.Name.Local == "xmlns" && tok.Name.Space != "" {
+			if attr.Name.Space == "" && attr.Name.Local == "xmlns" && tok.Name.Space != "" {
 				continue
 			}
 			attrs = append(attrs, attr)
